@@ -9,12 +9,12 @@ PID = "C14"
 
 def chain(seed, k, tier):
     rnd = random.Random(seed * 541 + k)
-    mode = ["below", "above", "ties", "zero-rate", "pre202"][k % 5]
+    mode = ["below", "above", "ties-above", "zero-rate", "pre202", "ties"][k % 6]
     sched = dict(scen.LIVE, OneWaySmall=20)
     if mode == "pre202":
         sched.update(V202=300, OneWaySmall=300)
     # PEG price decides whether the total stake is below or above 4500 PEG x 144 = 648,000 USD
-    peg_rate = {"below": 5 * 10**6, "ties": 5 * 10**6, "zero-rate": 5 * 10**6, "pre202": 5 * 10**6, "above": 10**8 * 2000}[mode]
+    peg_rate = {"below": 5 * 10**6, "ties": 5 * 10**6, "zero-rate": 5 * 10**6, "pre202": 5 * 10**6, "above": 10**8 * 2000, "ties-above": 10**8 * 2000}[mode]
     rates = {"PEG": peg_rate}
     s = scen.Scn("c14-%d-%s" % (k, mode), sched=sched, seed=seed * 10 + k, assets=["PEG", "pUSD", "pXBT", "pEUR", "pDCR"])
     users = [s.key("A%d" % i) for i in range(1, 9)]
@@ -30,10 +30,13 @@ def chain(seed, k, tier):
     # first round of holdings (before snapshot 144)
     s.grade(h, rates=rates)
     for i, u in enumerate(users):
-        amt = 300 * 10**8 if mode == "ties" else rnd.randint(1, 400) * 10**8
+        amt = 300 * 10**8 if mode in ("ties", "ties-above") else rnd.randint(1, 400) * 10**8
         txs = [{"t": "PEG", "amt": amt, "conv": "pUSD"}]
+        if mode == "ties-above":
+            s.entry(h, u, txs)          # identical holdings: the largest stake is shared by several addresses while the payout is capped
+            continue
         if i % 2 == 0:
-            txs.append({"t": "PEG", "amt": (100 if mode == "ties" else rnd.randint(1, 200)) * 10**8, "conv": "pXBT"})
+            txs.append({"t": "PEG", "amt": (100 if mode in ("ties", "ties-above") else rnd.randint(1, 200)) * 10**8, "conv": "pXBT"})
         if i % 3 == 0:
             txs.append({"t": "PEG", "amt": 50 * 10**8, "conv": "pEUR"})
         if i % 4 == 0:
